@@ -138,7 +138,8 @@ def install(ctx, repo, probes):
     ctx.target("sibling/repetitions", "sibling/start", "sibling/end",
                "sibling/interval", "sibling/interval-regrouped",
                "sibling/tiny-interval", "sibling/hash-collision",
-               "shift/fresh-twin",
+               "shift/fresh-twin", "roundtrip/anchor-24:00-period-end",
+               "roundtrip/tiny-decimal-interval",
                "twin/zone", "twin/representation", "twin/end-of-day",
                "twin/fraction-units",
                "twin/units", "roundtrip/fmt1", "roundtrip/fmt3",
@@ -634,6 +635,28 @@ def workload(ctx, repo):
                     if key in desc:
                         desc[key] = {kk: abs(x) for kk, x in dkw.items()}
             case = {"op": "roundtrip", "desc": desc}
+            if k % 15 == 4 and not recgen.is_nominal(desc) and \
+                    desc["fmt"] in (3, 4):
+                # an anchor spelled 24:00 on the last day of a month or
+                # year, in UTC and elsewhere
+                a = desc["end"] if desc["fmt"] == 4 else desc["start"]
+                yy = a["year"] if 1 <= a["year"] <= 9998 else 2020
+                rd = R.days_before_year(mode, yy + 1) - rng.choice(
+                    (1, 1, 1 + R.month_len(mode, yy, 12)))
+                new_a = gen.date_kwargs(mode, rng.choice(gen.REPS), rd)
+                new_a.update({"hour_of_day": 24})
+                new_a.update(gen.zone_kwargs(rng.choice(((0, 0), (0, 0),
+                                                         (1, 0), (-5, -30)))))
+                desc["end" if desc["fmt"] == 4 else "start"] = new_a
+                ctx.cls("roundtrip/anchor-24:00-period-end")
+            elif k % 15 == 9 and desc["fmt"] in (3, 4):
+                # an interval whose hours / minutes are below 1e-4 (str()
+                # writes such numbers with an exponent)
+                desc["dur"] = rng.choice(({"minutes": 0.00005},
+                                          {"hours": 0.00002},
+                                          {"hours": 1, "minutes": 0.00001},
+                                          {"seconds": 0.00003}))
+                ctx.cls("roundtrip/tiny-decimal-interval")
         ctx.case = case
         if k % 173 == 0:
             ctx.sample(case)
